@@ -56,7 +56,7 @@ void scen_c06(mt_case * c) {
   mt_desc("C06 barrier N=%d rounds=%d main_participates=%d delay seed=%08x\n", B.N, B.R, B.main_participates, B.dseed);
   mt_hash(c->prog.p, c->prog.pos);
   mt_lib_start(c, &e, big ? 32768 : 0);
-  Z0(myth_barrier_init(&B.b, 0, B.N));
+  MT_DIRTY(B.b); Z0(myth_barrier_init(&B.b, 0, B.N));
   myth_thread_t * th = calloc((size_t)B.N + 1, sizeof *th); int first = B.main_participates ? 1 : 0;
   for (int i = first; i < B.N; i++) Z0(myth_create_ex(&th[i], 0, barrier_body, (void *)(intptr_t)i));
   if (B.main_participates) barrier_body((void *)0);
@@ -134,9 +134,9 @@ void scen_c07(mt_case * c) {
   mt_hash(c->prog.p, c->prog.pos);
   mt_lib_start(c, &e, 0);
   mv_set_point_observer(nosw_observer);
-  myth_join_counter_init(&J.jc, 0, J.N);
+  MT_DIRTY(J.jc); myth_join_counter_init(&J.jc, 0, J.N);
   /* a state reachable by `preset` real decrements with no waiter */
-  J.jc.state = J.preset;
+  if (J.preset) J.jc.state = J.preset;
   myth_thread_t wt[8], dt[8];
   int order = (int)rd_below(r, 3);
   if (order == 0) for (int k = 0; k < J.K; k++) Z0(myth_create_ex(&wt[k], 0, jc_waiter, (void *)(intptr_t)k));
@@ -224,7 +224,7 @@ void scen_c08(mt_case * c) {
   mt_desc("C08 uncond mailbox items=%d producer yields %d consumer yields %d consumer_first=%d main_role=%d bystanders=%d(x%d yields)\n", U.items, U.yp, U.yc, consumer_first, main_role, nby, byy);
   mt_hash(c->prog.p, c->prog.pos);
   mt_lib_start(c, &e, 0);
-  myth_uncond_init(&U.u);
+  MT_DIRTY(U.u); myth_uncond_init(&U.u);
   myth_thread_t tp = 0, tc = 0, tb[4];
   for (int k = 0; k < nby; k++) Z0(myth_create_ex(&tb[k], 0, u_bystander, (void *)(intptr_t)byy));
   if (consumer_first) { if (main_role != 2) Z0(myth_create_ex(&tc, 0, u_consumer, 0)); if (main_role != 1) Z0(myth_create_ex(&tp, 0, u_producer, 0)); }
@@ -341,7 +341,7 @@ void scen_c09(mt_case * c) {
   mt_desc("\n");
   mt_hash(c->prog.p, c->prog.pos);
   mt_lib_start(c, &e, 0);
-  myth_felock_init(&F.fe, 0); F.box = -1;
+  MT_DIRTY(F.fe); myth_felock_init(&F.fe, 0); F.box = -1;
   myth_thread_t th[12], rth[4]; int n = 0;
   int cf = (int)rd_below(r, 2), rf = (int)rd_below(r, 2);
   if (rf) for (int k = 0; k < F.R; k++) Z0(myth_create_ex(&rth[k], 0, fe_reader, (void *)(intptr_t)k));
@@ -426,7 +426,7 @@ void scen_c14(mt_case * c) {
   mt_hash(c->prog.p, c->prog.pos);
   mt_lib_start(c, &e, 0);
   mv_set_point_observer(nosw_observer);
-  Z0(myth_mutex_init(&O.m, 0));
+  MT_DIRTY(O.m); Z0(myth_mutex_init(&O.m, 0));
   myth_thread_t th[16];
   for (int k = 0; k < O.K; k++) Z0(myth_create_ex(&th[k], 0, once_caller, (void *)(intptr_t)k));
   for (int k = 0; k < O.K; k++) { Z0(myth_join(th[k], 0)); mv_progress(); }
